@@ -178,8 +178,14 @@ def scenario(rng, rank, stalls=False, flood=0, starve=False):
                        frame(b"SPA99:99:99:99:99:99", cid, b"WCGET\x02")]
             budget = GeckoConfig.PROTOCOL_RETRY_COUNT * (GeckoConfig.PROTOCOL_TIMEOUT_IN_SECONDS + GeckoConfig.PAUSE_BETWEEN_RETRIES_IN_SECONDS)
             t0 = s.loop.time()
+            n_rf = 0
             while s.loop.time() - t0 < budget + 20 and not t_call.done():
                 s.inject(rng.choice(foreign))
+                if n_rf < 4 and s.loop.time() - t0 > 1.0 + 2.3 * n_rf:
+                    # an RF error report for THIS connection while the request is waiting: it is the RF consumer's,
+                    # whatever the phase between the pollers
+                    s.inject(frame(sid, cid, b"RFERR"), delay=0.013 * (n_rf + 1))
+                    n_rf += 1
                 s.advance(0.08)
             s.net.s2c = None
             s.advance(2.0)
